@@ -65,6 +65,8 @@ def run(entries, workname, design_L=None, design_ws=(), product_depth=8, do_prod
         for e in live:
             if design_only is not None and e.gid not in design_only:
                 continue
+            if len(e.tla.get('alpha', [])) > 12:
+                continue      # (all inputs <= L over dozens of terms: out of reach, and nothing the smaller grammars do not show)
             if hasattr(e, 'lexterms'):
                 continue      # token-list grammars over term sets: their design alphabet contains no term bytes (and the
                               # language oracle over 10+ terminals is exponential in L); the lexer has its own model (LexCheck)
